@@ -175,6 +175,16 @@ pub fn random_main(args: &Args) -> i32 {
             let f = ev["args"]["field"].as_str().unwrap().to_string();
             expect[&f] = ev["args"]["value"].clone();
             script.push(ev);
+            // now and then the SAME object is saved in between (a save changes nothing the getters report,
+            // and everything is written again, in the page of that moment, by the next save)
+            if rng.chance(1, 4) {
+                let sv = json!({"op":"Save","args":{"x":0}});
+                if apply(&mut sess, &sv) != "Ok" {
+                    viols.push(json!({"kind":"summary-res","op":"Save","what":"flush failed or panicked","case":{"script":script.clone()}}));
+                    break;
+                }
+                script.push(sv);
+            }
             let got = sess.pkg.as_ref().map(summary_json).unwrap_or(J::Null);
             if got != expect {
                 viols.push(json!({"kind":"summary-get","op":"Set","what": format!("getters differ right after a setter: {}", diff(&got, &expect)),"case":{"script":script.clone()}}));
